@@ -22,7 +22,7 @@ func init() { core.Register(area{}) }
 func (area) Name() string { return "tagfilter" }
 
 // number of deterministic witness cases at the start of every run
-const nWitness = 7
+const nWitness = 8
 
 func (area) Run(c *core.Ctx) error {
 	for i := 0; i < c.N; i++ {
@@ -46,6 +46,8 @@ func (area) Run(c *core.Ctx) error {
 			witnessStuckImmutable(c)
 		case i == 6:
 			witnessInsideFlush(c)
+		case i == 7:
+			witnessParked(c)
 		case i%7 == 0:
 			readerCase(c, r)
 		case c.Tier == "thorough" && i == nWitness+1:
@@ -234,6 +236,8 @@ type dbt struct {
 	values map[string]bool                  // every tag value written so far
 	rxSent map[string]string                // pattern -> table row already sent
 	placed bool
+	parkedAt  string // yield point at which the query under the oracle was parked ("" = not parked)
+	parkedOps string
 	silent bool // implementation + oracle only: no protocol lines (cases too large for the list model)
 	// the tag-value dictionary's table state machine (entry = metric, key, value), kept to tell which
 	// values are in flushed tries: PrepareFlush swaps when no or an empty immutable table exists; Flush
@@ -340,45 +344,122 @@ func sameTags(a, b map[string]string) bool {
 func (d *dbt) place(op string) {
 	d.placed = true
 	d.c.Branch("place/" + op)
-	d.guard(op, func() string {
-		var err error
-		switch op {
-		case "prepare-meta":
-			d.e.meta.PrepareFlush()
-			if !d.immSet || len(d.immVals) == 0 {
-				d.immSet = true
-				d.immVals, d.memVals = d.memVals, map[string]string{}
-			}
-		case "flush-meta":
-			err = d.e.meta.Flush()
-			if d.immSet && len(d.immVals) > 0 {
-				for _, v := range d.immVals {
-					d.flushedVals[v] = true
-				}
-				d.immVals = map[string]string{}
-				d.immSet = false
-			}
-		case "compact-meta":
-			_, err = d.e.compactStore(true)
-		case "prepare-index":
-			d.e.idx.PrepareFlush()
-		case "flush-index":
-			err = d.e.idx.Flush()
-		case "compact-index":
-			_, err = d.e.compactStore(false)
+	d.guard(op, func() string { return d.doPlace(op) })
+}
+
+// doPlace performs one placement op on the implementation (and the harness's own bookkeeping) and
+// returns its protocol output.
+func (d *dbt) doPlace(op string) string {
+	var err error
+	switch op {
+	case "prepare-meta":
+		d.e.meta.PrepareFlush()
+		if !d.immSet || len(d.immVals) == 0 {
+			d.immSet = true
+			d.immVals, d.memVals = d.memVals, map[string]string{}
 		}
+	case "flush-meta":
+		err = d.e.meta.Flush()
+		if d.immSet && len(d.immVals) > 0 {
+			for _, v := range d.immVals {
+				d.flushedVals[v] = true
+			}
+			d.immVals = map[string]string{}
+			d.immSet = false
+		}
+	case "compact-meta":
+		_, err = d.e.compactStore(true)
+	case "prepare-index":
+		d.e.idx.PrepareFlush()
+	case "flush-index":
+		err = d.e.idx.Flush()
+	case "compact-index":
+		_, err = d.e.compactStore(false)
+	}
+	if err != nil {
+		return "err " + strings.ReplaceAll(err.Error(), " ", "_")
+	}
+	// the number of level-0 files makes the table/file state machine observable
+	if strings.HasSuffix(op, "-meta") {
+		if op != "prepare-meta" {
+			d.checkDictionary(op)
+		}
+		l0, _ := d.e.fileCounts(true, "tv")
+		return fmt.Sprintf("ok tv=%d", l0)
+	}
+	i0, _ := d.e.fileCounts(false, "inverted")
+	f0, _ := d.e.fileCounts(false, "forward")
+	return fmt.Sprintf("ok inv=%d fwd=%d", i0, f0)
+}
+
+// checkDictionary: after the dictionary's files changed, every tag key's dictionary (all tag value ids
+// of the key, resolved to strings) must be exactly the values written under that key — names a wrong
+// dictionary before a later operation trips over it.
+func (d *dbt) checkDictionary(after string) {
+	defer func() {
+		if r := recover(); r != nil {
+			d.c.Fail("panic", fmt.Sprintf("dictionary read after %s panicked: %v", after, r))
+		}
+	}()
+	for name, recs := range d.series {
+		metricID, err := d.e.meta.GetMetricID(nsName, name)
 		if err != nil {
-			return "err " + strings.ReplaceAll(err.Error(), " ", "_")
+			d.c.Fail("dictionary-ne-written", fmt.Sprintf("after %s: metric %s: %v", after, name, err))
+			continue
 		}
-		// the number of level-0 files makes the table/file state machine observable
-		if strings.HasSuffix(op, "-meta") {
-			l0, _ := d.e.fileCounts(true, "tv")
-			return fmt.Sprintf("ok tv=%d", l0)
+		schema, err := d.e.meta.GetSchema(metricID)
+		if err != nil || schema == nil {
+			d.c.Fail("dictionary-ne-written", fmt.Sprintf("after %s: schema of %s: %v", after, name, err))
+			continue
 		}
-		i0, _ := d.e.fileCounts(false, "inverted")
-		f0, _ := d.e.fileCounts(false, "forward")
-		return fmt.Sprintf("ok inv=%d fwd=%d", i0, f0)
-	})
+		want := map[string]map[string]bool{}
+		for _, rec := range recs {
+			for k, v := range rec.tags {
+				if want[k] == nil {
+					want[k] = map[string]bool{}
+				}
+				want[k][v] = true
+			}
+		}
+		for k, vs := range want {
+			tm, ok := schema.TagKeys.Find(k)
+			if !ok {
+				d.c.Fail("dictionary-ne-written", fmt.Sprintf("after %s: metric %s: tag key %q not in the schema", after, name, k))
+				continue
+			}
+			ids, err := d.e.meta.FindTagValueIDsForTag(tm.ID)
+			if err != nil {
+				d.c.Fail("dictionary-ne-written", fmt.Sprintf("after %s: values of %s.%s: %v", after, name, k, err))
+				continue
+			}
+			got := map[uint32]string{}
+			if err := d.e.meta.CollectTagValues(tm.ID, ids.Clone(), got); err != nil {
+				d.c.Fail("dictionary-ne-written", fmt.Sprintf("after %s: strings of %s.%s: %v", after, name, k, err))
+				continue
+			}
+			gotSet := map[string]bool{}
+			for _, v := range got {
+				gotSet[v] = true
+			}
+			var extra, missing []string
+			for v := range gotSet {
+				if !vs[v] {
+					extra = append(extra, v)
+				}
+			}
+			for v := range vs {
+				if !gotSet[v] {
+					missing = append(missing, v)
+				}
+			}
+			if len(extra)+len(missing) > 0 || len(got) != int(ids.GetCardinality()) {
+				sort.Strings(extra)
+				sort.Strings(missing)
+				d.c.Fail("dictionary-ne-written", fmt.Sprintf("after %s: dictionary of %s.%s has %d ids; values not written under the key %q, written values missing %q",
+					after, name, k, ids.GetCardinality(), extra, missing))
+			}
+		}
+	}
 }
 
 // sendRx emits the regexp-table rows the model needs for cond (Go's regexp = the matcher parameter).
@@ -526,6 +607,10 @@ func (d *dbt) oracle(name string, cond stmt.Expr, groupBy []string, res *queryRe
 	fail := func(key, desc string) {
 		if k := d.classify(cond, res); k != "" {
 			key = k
+		}
+		if d.parkedAt != "" && key != "panic" {
+			key = "parked-reader-misses-flushed-batch"
+			desc = "query parked at " + d.parkedAt + " while " + d.parkedOps + " ran: " + desc
 		}
 		if os.Getenv("LVH_C10_DEBUG") != "" {
 			var fl, im, me []string
@@ -1029,11 +1114,63 @@ func dbCase(c *core.Ctx, r *rand.Rand) {
 				d.place(places[r.Intn(len(places))])
 			}
 		default:
+			if r.Intn(9) == 0 {
+				parkedRandom(d, r, metrics, keys, defects)
+				continue
+			}
 			if q, ok := genQuery(c, r, metrics, keys, defects); ok {
 				d.query(q.metric, q.cond, q.groupBy, q.how)
 			}
 		}
 	}
+}
+
+// parkedRandom: a single-atom query parked at one of the read paths' yield points while a flush cycle runs.
+func parkedRandom(d *dbt, r *rand.Rand, metrics, keys []string, defects bool) {
+	g := &cgen{r: r, keys: keys, defects: defects}
+	name := metrics[r.Intn(len(metrics))]
+	point := []string{"dictfind", "dictscan", "inverted", "forward"}[r.Intn(4)]
+	var cond stmt.Expr
+	k := keys[r.Intn(len(keys))]
+	switch point {
+	case "dictfind":
+		cond = &stmt.EqualsExpr{Key: k, Value: g.value()}
+	case "dictscan":
+		if r.Intn(2) == 0 {
+			cond = &stmt.LikeExpr{Key: k, Value: g.likePattern()}
+		} else {
+			cond = &stmt.RegexExpr{Key: k, Regexp: g.regex()}
+		}
+	case "inverted":
+		a := g.atom()
+		cond = a
+		if r.Intn(3) == 0 {
+			cond = &stmt.NotExpr{Expr: a}
+		}
+	default:
+		cond = &stmt.NotExpr{Expr: g.atom()}
+	}
+	meta := point == "dictfind" || point == "dictscan"
+	pre, fl := "prepare-index", "flush-index"
+	if meta {
+		pre, fl = "prepare-meta", "flush-meta"
+	}
+	// No compaction while a reader is parked: bitmaps built from a snapshot (roaring FromBuffer + Or share
+	// the mmap'ed containers) are used after findSeriesIDsByKeys closed that snapshot, so deleting the
+	// old files under a live query reads unmapped / reused memory — a snapshot-lifetime defect of its
+	// own (C02/C03 territory, see design note), not something this model can predict.
+	var places []string
+	switch r.Intn(4) {
+	case 0:
+		d.place(pre)
+		places = []string{fl}
+	case 1, 2:
+		places = []string{pre, fl}
+	default:
+		d.place(pre)
+		places = []string{fl, pre, fl}
+	}
+	d.queryParked(point, name, cond, places)
 }
 
 // genQuery draws one leaf query: metric, condition (SQL text through sql.Parse or a stmt tree), group-by keys.
